@@ -300,6 +300,57 @@ def variant(rep, cfg, what, workers=8):
     return beh_from_states(states)
 
 
+def families():
+    """directed scenario families for the situations a random walk of 16 steps hardly ever reaches: an ISR change
+    of the partition leader (the stream's first leader is the least loaded server: a) meets a leader election
+    decided by the controller - with the controller's FSM lagging, with the request held before the node mutex,
+    with the controller on another server (the request is propagated)"""
+    out = []
+
+    def create(slow_a):
+        st = [{'a': 'Start', 'r': 1, 's': 'a', 'op': 'create', 'x': '-'}, {'a': 'Lock', 'i': 1},
+              {'a': 'Propose', 'i': 1, 'x': 'a'}]
+        return st + ([{'a': 'Apply', 's': 'a'}] if slow_a else [])
+
+    for x in ('b', 'c'):
+        isr = [{'a': 'Start', 'r': 2, 's': 'a', 'op': 'shrink', 'x': x}]
+        # the request waits before the node mutex while the election is decided and applied
+        out.append((create(False) + isr + [{'a': 'Start', 'r': 3, 's': 'a', 'op': 'elect', 'x': '-'}, {'a': 'Lock', 'i': 3},
+                                           {'a': 'Propose', 'i': 3, 'x': x}, {'a': 'Lock', 'i': 2},
+                                           {'a': 'Propose', 'i': 2, 'x': x}], set()))
+        # the election is committed but not yet applied by the controller when the request arrives
+        out.append((create(True) + [{'a': 'Start', 'r': 2, 's': 'a', 'op': 'elect', 'x': '-'}, {'a': 'Lock', 'i': 2},
+                                    {'a': 'Propose', 'i': 2, 'x': x},
+                                    {'a': 'Start', 'r': 3, 's': 'a', 'op': 'shrink', 'x': x}, {'a': 'Lock', 'i': 3},
+                                    {'a': 'Apply', 's': 'a'}, {'a': 'Propose', 'i': 3, 'x': x}], {'a'}))
+        # the controller is b: the partition leader's request is propagated; the election is decided at b
+        move = [{'a': 'Transfer', 't': 'b'}, {'a': 'Lost', 's': 'a'}, {'a': 'Acquired', 's': 'b'}]
+        out.append((create(False) + move + isr + [{'a': 'Start', 'r': 3, 's': 'b', 'op': 'elect', 'x': '-'}, {'a': 'Lock', 'i': 4},
+                                                  {'a': 'Propose', 'i': 4, 'x': x}, {'a': 'Handle', 'i': 3},
+                                                  {'a': 'Lock', 'i': 3}, {'a': 'Propose', 'i': 3, 'x': x}], set()))
+        out.append((create(False) + move + isr + [{'a': 'Handle', 'i': 3},
+                                                  {'a': 'Start', 'r': 3, 's': 'b', 'op': 'elect', 'x': '-'}, {'a': 'Lock', 'i': 4},
+                                                  {'a': 'Propose', 'i': 4, 'x': x},
+                                                  {'a': 'Lock', 'i': 3}, {'a': 'Propose', 'i': 3, 'x': x}], set()))
+        # an expansion after a shrink, meeting the election the same ways
+        shr = isr + [{'a': 'Lock', 'i': 2}, {'a': 'Propose', 'i': 2, 'x': x}]
+        out.append((create(False) + shr + [{'a': 'Start', 'r': 3, 's': 'a', 'op': 'expand', 'x': x},
+                                           {'a': 'Start', 'r': 4, 's': 'a', 'op': 'elect', 'x': '-'}, {'a': 'Lock', 'i': 4},
+                                           {'a': 'Propose', 'i': 4, 'x': 'c' if x == 'b' else 'b'}, {'a': 'Lock', 'i': 3},
+                                           {'a': 'Propose', 'i': 3, 'x': x}], set()))
+        out.append((create(True) + shr + [{'a': 'Apply', 's': 'a'},
+                                          {'a': 'Start', 'r': 3, 's': 'a', 'op': 'elect', 'x': '-'}, {'a': 'Lock', 'i': 3},
+                                          {'a': 'Propose', 'i': 3, 'x': 'c' if x == 'b' else 'b'},
+                                          {'a': 'Start', 'r': 4, 's': 'a', 'op': 'expand', 'x': x}, {'a': 'Lock', 'i': 4},
+                                          {'a': 'Apply', 's': 'a'}, {'a': 'Propose', 'i': 4, 'x': x}], {'a'}))
+    # delete / create meeting each other and a deleted stream meeting an ISR change
+    out.append((create(False) + [{'a': 'Start', 'r': 2, 's': 'a', 'op': 'shrink', 'x': 'b'},
+                                 {'a': 'Start', 'r': 3, 's': 'b', 'op': 'delete', 'x': '-'}, {'a': 'Handle', 'i': 4},
+                                 {'a': 'Lock', 'i': 4}, {'a': 'Propose', 'i': 4, 'x': '-'}, {'a': 'Lock', 'i': 2},
+                                 {'a': 'Propose', 'i': 2, 'x': 'b'}], set()))
+    return out
+
+
 def run(rep, tier, seed, replay):
     rng = random.Random(seed)
     if replay:
@@ -326,6 +377,9 @@ def run(rep, tier, seed, replay):
         if not os.path.exists(os.path.join(core.SPEC, cfg)):
             continue
         directed.append(variant(rep, cfg, what))
+    fam = families()
+    rep.cov['behaviours_directed_families'] = len(fam)
+    directed += fam
     # 3. a simulated pool, reduced to the behaviours that cover the situation features
     pool = core.tlc_simulate('MC_Propagation.tla', 'Sim_Propagation.cfg', 3000 if quick else 20000, 16 if quick else 20,
                              seed, timeout=900)
